@@ -3,6 +3,8 @@ mod c05;
 mod c06;
 mod c07;
 mod c08;
+mod c09;
+mod synth;
 mod c13;
 
 fn main() {
@@ -13,6 +15,7 @@ fn main() {
         Some("c06") => c06::main(&args[1..]),
         Some("c07") => c07::main(&args[1..]),
         Some("c08") => c08::main(&args[1..]),
+        Some("c09") => c09::main(&args[1..]),
         Some("c13") => c13::main(&args[1..]),
         _ => {
             eprintln!("usage: fv-write <c06|...> ...");
